@@ -66,7 +66,7 @@ func (r *Rng) Range(lo, hi int64) int64 { // inclusive
 	}
 	return lo + r.Int63n(hi-lo+1)
 }
-func (r *Rng) Bool() bool         { return r.U64()&1 == 1 }
+func (r *Rng) Bool() bool          { return r.U64()&1 == 1 }
 func (r *Rng) Chance(pct int) bool { return r.Intn(100) < pct }
 
 // PickW returns an index chosen with the given weights.
@@ -169,7 +169,7 @@ func (t *Trace) Clone() *Trace {
 	return &n
 }
 
-func (t *Trace) I(k string) int64  { return t.Cfg[k] }
+func (t *Trace) I(k string) int64   { return t.Cfg[k] }
 func (t *Trace) Sg(k string) string { return t.CfgS[k] }
 
 func (t *Trace) Summary() string {
@@ -264,9 +264,9 @@ type Result struct {
 func NewResult() *Result {
 	return &Result{Faults: map[string]int64{}, Probes: map[string]int64{}}
 }
-func (r *Result) Fault(k string)      { r.Faults[k]++ }
+func (r *Result) Fault(k string)           { r.Faults[k]++ }
 func (r *Result) FaultN(k string, n int64) { r.Faults[k] += n }
-func (r *Result) Probe(k string)      { r.Probes[k]++ }
+func (r *Result) Probe(k string)           { r.Probes[k]++ }
 func (r *Result) ProbeN(k string, n int64) { r.Probes[k] += n }
 
 // Property is one check.
@@ -283,7 +283,7 @@ type Property interface {
 
 var registry = map[string]Property{}
 
-func Register(p Property) { registry[p.ID()] = p }
+func Register(p Property)    { registry[p.ID()] = p }
 func Get(id string) Property { return registry[id] }
 func IDs() []string {
 	var s []string
